@@ -274,8 +274,8 @@ func genOp(t *rapid.T, used map[string]bool) (Op, bool) {
 		return op, false
 	}
 	used[id] = true
-	if op.Act != "del" && op.Fam != "hook" {
-		op.ValOf = genValOf(t)
+	if op.Act != "del" {
+		op.ValOf = genValOf(t) // hooks too: a hook equal to the runtime's or to another plugin's
 	}
 	return op, true
 }
@@ -648,7 +648,9 @@ func forceAppend(t *rapid.T, c *Case) {
 		s := &c.Chain[i]
 		if fam == "hook" {
 			if hasOp(s, "hook", hk) < 0 {
-				s.Ops = append(s.Ops, Op{Fam: "hook", Key: hk, Act: "add"})
+				// a third of the appended hooks equal the runtime's own hook of that list or
+				// another plugin's (all of them must still be present, in plugin order)
+				s.Ops = append(s.Ops, Op{Fam: "hook", Key: hk, Act: "add", ValOf: gen.Pick(t, "ahookval", []string{"", "", "", "", "rt", "p0", "p1"})})
 			}
 			continue
 		}
